@@ -59,13 +59,14 @@ PROPS = {
                    "inputs: avg_strat / regret_match (all five branches incl. softmax with either sign of the weight) return finite "
                    "entries in [0,1] with a positive entry and never panic; cum_regret is finite and non-negative; a fresh infoset is uniform.",
         level_note="Leaf totality only: absence of panics in the tree recursion, hangs, deadlock and lock poisoning are not decided; "
-                   "solve()'s thread-count error logic is read, not proved (Kani ICE on Game::solve, Verus lacks NonZero/rayon specs). exp is a "
+                   "Game::solve's dispatch is proved against stand-ins for NonZeroUsize / available_parallelism and uninterpreted solvers. exp is a "
                    "sound interval model in the softmax harness.",
         verus=[U("c05_avg_strat", ["C05.V.avg_strat.sums_to_one", "C05.V.avg_strat.normalised", "C05.V.avg_strat.uniform_when_empty"]),
+               U("c05_solve_dispatch", ["C05.V.solve.one_thread_never_errors", "C05.V.solve.thread_overflow", "C05.V.solve.multi_dispatch", "C05.V.solve.result_plumbing"]),
                U("c08_advance_order", ["C02.V.advance.reports_bound (the bound is computed with the caller's iteration number >= 1, hence a number)"])],
         kani_functions=["src/solve/data.rs :: fn avg_strat", "src/solve/data.rs :: impl RegretParams / fn regret_match", "src/solve/data.rs :: impl RegretInfoset / fn new"],
         trusted_base=[FLOAT_IDEAL, "interval model of f64::exp"],
-        not_decided=["whole-run totality on arbitrary trees, hangs, deadlock", "Game::solve thread-count dispatch"],
+        not_decided=["whole-run totality on arbitrary trees, hangs, deadlock", "num_threads == 0 (machine parallelism): the closure passed to or_else is opaque"],
     ),
     "C06": dict(
         level="proof",
